@@ -58,6 +58,50 @@ static void proc_start(struct proc *q, const char *script, reproc_options o)
   q->D = o.deadline ? t + o.deadline : NOD;
 }
 
+/* fork mode: the forked side continues inside the library, then checks what reproc.h promises there and becomes a helper */
+static void proc_start_fork(struct proc *q, const char *script, reproc_options o, int child_first)
+{
+  memset(q, 0, sizeof *q);
+  vk_cfg.fork_mode = 1;
+  vk_cfg.fork_child_first = child_first;
+  vk_script(script);
+  q->p = hx_new();
+  int64_t t = vk_now();
+  o.fork = true;
+  int time_on = vk_cfg.time_on;
+  vk_cfg.time_on = 0;
+  int r = hx_start(q->p, NULL, o);
+  if (vk_side != 0) hx_forked_side(q->p, r);
+  vk_cfg.time_on = time_on;
+  if (r <= 0) vk_finish(OUT_INFRA, "fork-mode start failed in the poll harness: %d", r);
+  q->c = &vk_children[vk_nchildren - 1];
+  for (int i = 0; i < 4; i++) { q->fd[i] = -1; q->ino[i] = 0; }
+  q->D = o.deadline ? t + o.deadline : NOD;
+}
+
+static void proc_fork_identify(struct proc *q)
+{
+  /* run what is left of the library on the forked side, then match descriptors through its hello */
+  int s = vk_cfg.sched_on;
+  vk_cfg.sched_on = 0;
+  while (q->c->state == CH_LIBPEND) vk_child_step(q->c);
+  vk_cfg.sched_on = s;
+  if (!q->c->have_hello) vk_finish(OUT_INFRA, "forked side never said hello (state %d)", q->c->state);
+  for (int i = 0; i < 3; i++) q->fd[i] = ident_parent_fd_for_stream(q->c, i);
+  /* the forked side has (or should still have) the exit pipe's write end: find the parent's read end as the library-owned
+   * read-only pipe that is none of the streams */
+  for (int fd = 0; fd < 128 && q->fd[3] < 0; fd++) {
+    struct stat st;
+    if (!vk_lib_owns_fd(fd) || fstat(fd, &st) < 0 || !S_ISFIFO(st.st_mode)) continue;
+    if (fd == q->fd[0] || fd == q->fd[1] || fd == q->fd[2]) continue;
+    if ((fcntl(fd, F_GETFL) & O_ACCMODE) == O_RDONLY) q->fd[3] = fd;
+  }
+  for (int i = 0; i < 4; i++) {
+    struct stat st;
+    q->ino[i] = q->fd[i] >= 0 && fstat(q->fd[i], &st) == 0 ? st.st_ino : 0;
+  }
+}
+
 static void proc_end(struct proc *q)
 {
   if (!q->p) return;
@@ -107,7 +151,7 @@ static const int w_timeouts[] = { 0, 1, 2, 3, -1, -2 };
 static const int w_deadlines[] = { 0, 1, 2, 3, INT_MAX };
 #define NWT 6
 #define NWD 5
-#define NWC 3 /* child: idle, exits by itself, two waits in a row on an idle child */
+#define NWC 5 /* child: idle, exits by itself, two waits in a row on an idle child, forked (child side first), forked (parent first) */
 
 static void c08_wait_cfg(int ti, int di, int ci, int tier)
 {
@@ -124,9 +168,9 @@ static void c08_wait_cfg(int ti, int di, int ci, int tier)
   vk_cfg.fault_bound = 1;
   vk_cfg.fault_calls = 1ull << C_POLL;
   vk_cfg.total_bound = tier ? 2 : 1;
-  snprintf(key8, sizeof key8, "h_c08|wait(%d)|deadline=%d|child=%s", timeout, deadline, ci == 1 ? "exits" : "idle");
+  snprintf(key8, sizeof key8, "h_c08|wait(%d)|deadline=%d|child=%s", timeout, deadline, ci == 1 ? "exits" : ci == 3 ? "forked,child-side-first" : ci == 4 ? "forked,parent-first" : "idle");
   hx_desc("%s|%s", key8, ci == 2 ? "twice" : "once");
-  snprintf(key8, sizeof key8, "h_c08|wait|timeout=%s|deadline=%s", timeout == -1 ? "infinite" : timeout == -2 ? "until-deadline" : "finite", deadline ? "set" : "none");
+  snprintf(key8, sizeof key8, "h_c08|wait|timeout=%s|deadline=%s%s", timeout == -1 ? "infinite" : timeout == -2 ? "until-deadline" : "finite", deadline ? "set" : "none", ci >= 3 ? "|fork-mode" : "");
   hx_begin();
   vk_set_hang_hook(c08_hang);
   g_kind8 = 0;
@@ -134,8 +178,9 @@ static void c08_wait_cfg(int ti, int di, int ci, int tier)
   reproc_options o;
   memset(&o, 0, sizeof o);
   o.deadline = deadline;
-  proc_start(&q, ci == 1 ? "X4" : "", o);
-  for (int round = 0; round < (ci == 2 ? 2 : 1); round++) {
+  if (ci >= 3) proc_start_fork(&q, "", o, ci == 3);
+  else proc_start(&q, ci == 1 ? "X4" : "", o);
+  for (int round = 0; round < (ci == 2 || ci >= 3 ? 2 : 1); round++) {
     int64_t t0 = vk_now();
     g_t0 = t0;
     int64_t bound = timeout >= 0 ? t0 + timeout : timeout == -1 ? NOD : (q.D == NOD ? NOD : (q.D > t0 ? q.D : t0));
@@ -145,7 +190,7 @@ static void c08_wait_cfg(int ti, int di, int ci, int tier)
     vk_faults_armed = 0;
     int64_t t1 = vk_now();
     int dev = total_time_dev(hx_last_api);
-    int exited = q.c->state != CH_RUNNING;
+    int exited = q.c->state == CH_ZOMBIE || q.c->state == CH_REAPED;
     int64_t te = exited ? q.c->exit_time : NOD;
     if (bound != NOD && t1 > bound + dev)
       vk_violation("C08", "wait-blocks-past-bound", key8, "wait returned %s at +%lld ms, its bound is +%lld ms (clock deviations %d ms)", hx_errname(r),
@@ -539,17 +584,64 @@ static const struct c09_setup second[] = {
 };
 #define NSECOND 4
 
+#define NFORKCFG 12
+
+static void c09_fork_cfg(long k)
+{
+  int child_first = (int) (k % 2);
+  k /= 2;
+  static const int fmasks[3] = { 8, 10, 15 };
+  int mask = fmasks[k % 3];
+  int timeout = (k / 3) ? 2 : 0;
+  memset(&vk_cfg, 0, sizeof vk_cfg);
+  vk_cfg.sched_on = 1;
+  vk_cfg.sched_bound = 2;
+  vk_cfg.vlimit = 40;
+  vk_cfg.hello_lite = 1;
+  snprintf(key9, sizeof key9, "h_c09|fork-mode|%s|mask=%x|timeout=%d", child_first ? "forked-side-first" : "parent-first", (unsigned) mask, timeout);
+  hx_desc("%s", key9);
+  snprintf(key9, sizeof key9, "h_c09|fork-mode");
+  hx_begin();
+  vk_set_hang_hook(c09_hang);
+  struct proc procs[3];
+  memset(procs, 0, sizeof procs);
+  reproc_options o;
+  memset(&o, 0, sizeof o);
+  o.nonblocking = true;
+  proc_start_fork(&procs[0], "", o, child_first);
+  reproc_event_source src[1] = { { procs[0].p, mask, 0x7f } };
+  /* the forked child is alive and idle for the whole execution: whatever the order of the two sides, no exit may be reported */
+  for (int round = 0; round < 2; round++) {
+    src[0].events = 0x7f;
+    int r = hx_poll(src, 1, timeout);
+    if (r >= 0 && (src[0].events & REPROC_EVENT_EXIT)) {
+      int w = hx_wait(procs[0].p, 0);
+      vk_violation("C09", "exit-reported-while-running", key9, "an exit event was reported for a forked child that is still running (state %d); wait(0) then %s", procs[0].c->state,
+                   vk_reap_blocked ? "blocked in the reap" : hx_errname(w));
+      break;
+    }
+    if (round == 0) proc_fork_identify(&procs[0]);
+    else c09_check(procs, 1, src, timeout, r);
+  }
+  vk_cfg.sched_on = 0;
+  proc_end(&procs[0]);
+}
+
 static long c09_n(int tier)
 {
   /* one source: setup x 16 masks x 2 timeouts; two sources: setup x second x {mask pairs reduced} x 2 timeouts, with a NULL source interleaved */
   long one = (long) NSETUP * 16 * 2;
   long two = (long) NSETUP * NSECOND * (tier ? 16 : 4) * 2 * 2;
-  return one + two;
+  return one + two + NFORKCFG;
 }
 
 static void c09_run(int tier, long cfg)
 {
   long one = (long) NSETUP * 16 * 2;
+  {
+    long two = (long) NSETUP * NSECOND * (tier ? 16 : 4) * 2 * 2;
+    if (cfg >= one + two) { c09_fork_cfg(cfg - one - two); return; }
+  }
   struct c09_setup su[2];
   int masks[2] = { 0, 0 }, timeout, n = 1;
   if (cfg < one) {
